@@ -81,13 +81,13 @@ func loadLabels(m *Model, viol []string, applied []string) (bool, []string) {
 // TestC18LoadCombos: LoadConfig(file) returns nil  <=>  the reference predicate accepts.
 func TestC18LoadCombos(t *testing.T) {
 	sub := lab.Sub("load-vs-reference", "rapid: YAML text rendered from a generated configuration model — every section drawn from its valid variants (all documented enum values, omitted / disabled / "+
-		"disabled-with-values / enabled blocks, boundary values, shuffled section order, quoted or plain strings, comments), then 0-3 faults from the fault table (one per documented constraint and offending value) applied, "+
+		"disabled-with-values / enabled blocks, boundary values, shuffled section order, quoted or plain strings, comments), then 0-3 faults from the fault table (one per documented constraint and offending value, incl. two enabled listeners sharing a port in all three pairings) applied, "+
 		"so invalid sections combine; oracle: config.LoadConfig(file) == nil  <=>  reference predicate (ref.go) reports no violated documented constraint; "+
 		"non-trivial = >= 2 non-default sections, or an invalid section other than the first one the validator examines (backends), or a YAML-typed plugin option")
 	sub.NontrivialFloor(0.60)
 	sub.Floor("reference-accepts", 0.25)
 	sub.Floor("reference-rejects", 0.25)
-	for _, s := range []string{"backends", "server", "timeouts", "load_balancer", "health_checks", "rate_limit", "circuit_breaker", "metrics", "admin_api", "logging"} {
+	for _, s := range []string{"backends", "server", "timeouts", "load_balancer", "health_checks", "rate_limit", "circuit_breaker", "metrics", "admin_api", "logging", "ports"} {
 		sub.Floor("invalid-in="+s, 0.01)
 	}
 	ld := newLoader(t)
@@ -223,7 +223,7 @@ func TestC18LoadEnumerated(t *testing.T) {
 				lab.Problem("%s: fault %s produces violations %v, expected [%s] (and nothing outside its section)", name, f.ID, viol, f.Name)
 			}
 		case "pair":
-			if len(viol) < 2 {
+			if len(viol) < 1 { // the second fault may overwrite what the first one set (e.g. a port), never both
 				lab.Problem("%s: pair %v produces violations %v", name, c.IDs, viol)
 			}
 		}
